@@ -431,6 +431,12 @@ func (c *Ctx) Finish() int {
 		ev["assumptions"] = []string{}
 	}
 	b, _ := json.MarshalIndent(ev, "", " ")
+	if c.ReplayArg != "" {
+		if newViol > 0 {
+			return 1
+		}
+		return 0
+	}
 	os.MkdirAll(c.outDir("evidence"), 0o755)
 	if err := os.WriteFile(filepath.Join(c.outDir("evidence"), c.Prop+".json"), b, 0o644); err != nil {
 		fmt.Printf("MACHINERY-ERROR property=%s evidence: %v\n", c.Prop, err)
